@@ -37,7 +37,9 @@ def mut(e):
         c = copy.deepcopy(e)
         sec = [l for l in c["full"] if l["role"] in ("wif", "prv")]
         if sec:
-            c["filt"].append({"ptr": T("/BIP44/extra"), "role": "other", "s": sec[0]["s"]})
+            # embedded in a longer string (as an output descriptor would carry it), so that only the
+            # Base58-run scan can find it
+            c["filt"].append({"ptr": T("/BIP44/extra/deep/0"), "role": "other", "s": T("wpkh([2d36e0eb/84'/0'/0']") + sec[0]["s"] + T("/0/*)")})
             return c
     return None
 
